@@ -5,7 +5,8 @@
     0.0.0.0 and otherwise 1 + offset from the subnet base, hostnames as 0 for
     the empty name and otherwise 1 + index into the name table of the case,
     instants relative to the start of the case, and tables as flat lists.
-    This file decodes the inputs, runs [Model.Dhcp4.step], and encodes the
+    This file decodes the inputs, runs [Model.Dhcp4Admin.wstep] (which lifts
+    [Model.Dhcp4.step] to the service object), and encodes the
     model's observations the same way. *)
 From AGH Require Import Base.Run.
 From AGH Require Export Model.Dhcp4 Model.Dhcp4Admin.
